@@ -48,6 +48,8 @@ func main() {
 		os.Exit(cmdGen(os.Args[2:]))
 	case "run":
 		os.Exit(cmdRun(os.Args[2:]))
+	case "golden":
+		os.Exit(cmdGolden(os.Args[2:]))
 	}
 	fmt.Fprintln(os.Stderr, "unknown command")
 	os.Exit(2)
